@@ -84,7 +84,9 @@ def broadcast(self, other):
     # Then repeat along axes
     #for newaxis in newaxes:  
     for newaxis in reversed(newaxes):  # should be faster ( CHECK ) 
-        if newobj.axes[newaxis.name].size == 1 and newaxis.size != 1:
+        ax = newobj.axes[newaxis.name]
+        # (an inserted dimension has the dummy label None: it takes the target's label even if there is only one)
+        if ax.size == 1 and (newaxis.size != 1 or ax.values[0] is None):
             newobj = newobj.repeat(newaxis.values, axis=newaxis.name)
 
     return newobj
